@@ -84,6 +84,21 @@ def reader_validation(ctx):
             ctx.check(ok, rid, inst, "return dominated by a version re-validation after the last shared read",
                       "try_get_value can return %s on a path where the bucket version was not re-validated after the last read of a shared "
                       "cell (a concurrent erase that moved/recycled the item goes unnoticed)" % ("a hit" if val == 1 else "'absent'"), fn.where(r), fn=fn)
+        # lock-freedom of the reader: the snapshot is re-read (retry) only when the bucket version changed - retrying on an unchanged version means
+        # waiting for whoever holds the bucket (e.g. while a delete marker is set)
+        snaps = [e for e in flow.find(fn, {"k": "call", "field": "bucket::state", "op": "load"}) if not any(
+            fn.before(x, e) for x in flow.find(fn, {"k": "call"}) if _is_shared_read(fn, x))]
+
+        def differ(f_, nid):
+            op = _version_cmp(f_, nid)
+            if op is None:
+                return None
+            return True if op == "!=" else False
+        for sp in snaps[:1]:
+            ok, path, n_ = flow.between_only_via(fn, sp, sp, differ)
+            ctx.check(ok and n_ > 0, rid, V + "try_get_value#retry-only-if-version-changed", "every retry passes a 'version changed' edge",
+                      "try_get_value jumps back to re-read the bucket state on a path where the version did not change: the documented lock-free reader then spins "
+                      "until the thread holding the bucket (e.g. an eraser with the delete marker set) proceeds", fn.where(sp), fn=fn, path=flow.describe_path(fn, path))
         # delete-marker test for array hits
         for r in rets:
             kids = fn.kids(r)
